@@ -46,7 +46,8 @@ OdeIsland(c) ==
     LET d == Len(c.dims)
         A == IF c.op = "markov" THEN GenCores(d, c.seed)
              ELSE FillCores(IF c.cplx THEN "complex" ELSE "real", c.seed, OpShape(c.dims, c.rg))
-        x0 == IF c.op = "markov" THEN PosCores(d, c.seed) ELSE FullRankCores(c.dims, c.rx, c.seed + 1, c.cplx)
+        \* seed 2: real-valued initial values also for complex operators (mixed dtypes)
+        x0 == IF c.op = "markov" THEN PosCores(d, c.seed) ELSE FullRankCores(c.dims, c.rx, c.seed + 1, c.cplx /\ c.seed # 2)
     IN  [A |-> A, x0 |-> x0,
          guess |-> FullRankCores(c.dims, MaxRanks(c.dims), c.seed + 2, c.cplx),
          prev |-> FullRankCores(c.dims, c.rx, c.seed + 4, c.cplx),
